@@ -20,17 +20,17 @@ theorem not_busName_of_falsy {o : Option Name} (h : truthy o = false) : o ≠ so
 
 /-! ### dispatch -/
 
-theorem dispatch_unicast {cfg : Cfg ρ} (hr : cfg.Repaired) (s : State ρ) (i : ConnId) (m : Msg) (d : Name)
+theorem dispatch_unicast {cfg : Cfg ρ} (hr : cfg.Repaired) (s : State ρ) (i : ConnId) (m w : Msg) (d : Name)
     (hd : m.dest = some d) (h1 : d ≠ []) (h2 : d ≠ busName) :
-    dispatch cfg s i m = busSend s d (.fwd i m) := by
+    dispatch cfg s i m w = busSend s d (.fwd i w) := by
   simp [dispatch, hr.1, hd, truthy_some_ne_nil h1, h2]
 
-theorem dispatch_bus {cfg : Cfg ρ} (hr : cfg.Repaired) (s : State ρ) (i : ConnId) (m : Msg)
-    (hd : m.dest = some busName) : dispatch cfg s i m = [] := by
+theorem dispatch_bus {cfg : Cfg ρ} (hr : cfg.Repaired) (s : State ρ) (i : ConnId) (m w : Msg)
+    (hd : m.dest = some busName) : dispatch cfg s i m w = [] := by
   simp [dispatch, hr.1, hd, truthy_some_ne_nil busName_ne_nil]
 
-theorem dispatch_broadcast {cfg : Cfg ρ} (hr : cfg.Repaired) (s : State ρ) (i : ConnId) (m : Msg)
-    (hd : truthy m.dest = false) : dispatch cfg s i m = route cfg s m (.fwd i m) := by
+theorem dispatch_broadcast {cfg : Cfg ρ} (hr : cfg.Repaired) (s : State ρ) (i : ConnId) (m w : Msg)
+    (hd : truthy m.dest = false) : dispatch cfg s i m w = route cfg s m (.fwd i w) := by
   unfold dispatch
   rw [hr.1]
   cases hm : m.dest with
@@ -216,12 +216,12 @@ theorem stepNamed_unicast {cfg : Cfg ρ} (hr : cfg.Repaired) (s1 : State ρ) (i 
     (ha : Addressed m d) :
     (stepNamed cfg s1 i nm named called m op).1 = s1 ∧
     (stepNamed cfg s1 i nm named called m op).2.deliveries =
-      busSend s1 d (.fwd i (withSender m (some nm))) ∧
+      busSend s1 d (.fwd i (remarshal m nm)) ∧
     (stepNamed cfg s1 i nm named called m op).2.named = named := by
   obtain ⟨hd, h1, h2⟩ := ha
   have hne : m.dest ≠ some busName := by rw [hd]; intro e; exact h2 (Option.some.inj e)
   have hd' : ({ m with sender := some nm } : Msg).dest = some d := hd
-  simp [stepNamed, hne, messageReceived, dispatch_unicast hr s1 i _ d hd' h1 h2, withSender]
+  simp [stepNamed, hne, messageReceived, dispatch_unicast hr s1 i _ _ d hd' h1 h2]
 
 /-- A message without destination: the state is untouched and the deliveries are those of the
 router. -/
@@ -230,11 +230,11 @@ theorem stepNamed_broadcast {cfg : Cfg ρ} (hr : cfg.Repaired) (s1 : State ρ) (
     (hd : truthy m.dest = false) :
     (stepNamed cfg s1 i nm named called m op).1 = s1 ∧
     (stepNamed cfg s1 i nm named called m op).2.deliveries =
-      route cfg s1 (withSender m (some nm)) (.fwd i (withSender m (some nm))) ∧
+      route cfg s1 (withSender m (some nm)) (.fwd i (remarshal m nm)) ∧
     (stepNamed cfg s1 i nm named called m op).2.named = named := by
   have hne : m.dest ≠ some busName := not_busName_of_falsy hd
   have hd' : truthy ({ m with sender := some nm } : Msg).dest = false := hd
-  simp [stepNamed, hne, messageReceived, dispatch_broadcast hr s1 i _ hd', withSender]
+  simp [stepNamed, hne, messageReceived, dispatch_broadcast hr s1 i _ _ hd', withSender]
 
 /-- A message addressed to the bus: no forward; a call is answered to the caller. -/
 theorem stepNamed_bus {cfg : Cfg ρ} (hr : cfg.Repaired) {s1 : State ρ} (inv : Inv s1) (i : ConnId) (c1 : Conn)
@@ -281,8 +281,8 @@ theorem stepNamed_bus {cfg : Cfg ρ} (hr : cfg.Repaired) {s1 : State ρ} (inv : 
     refine ⟨inv.transfer hnm hcn hru a1 a3 a4 a5, ⟨a1, a5, hnm, hcn, by rw [hconns]; simp⟩, rfl, [], by simp, ?_⟩
     simp [answered, h1, h2, h4]
   · have e : stepNamed cfg s1 i nm named called m op =
-        ((messageReceived cfg s1 i nm { m with sender := some nm } op).1,
-         { deliveries := (messageReceived cfg s1 i nm { m with sender := some nm } op).2, named := named,
+        ((messageReceived cfg s1 i nm { m with sender := some nm } (remarshal m nm) op).1,
+         { deliveries := (messageReceived cfg s1 i nm { m with sender := some nm } (remarshal m nm) op).2, named := named,
            lose := decide (called = false ∧ m.mtype = .call ∧ m.dest ≠ some busName) }) := by
       simp only [stepNamed, if_neg hhello]
     rw [e]
@@ -303,13 +303,13 @@ theorem stepNamed_bus {cfg : Cfg ρ} (hr : cfg.Repaired) {s1 : State ρ} (inv : 
         · exact absurd hm h
       refine ⟨by simpa [messageReceived, hm, hd] using inv2, by simpa [messageReceived, hm, hd] using keeps, rfl,
         sigs, hs, ?_⟩
-      simp only [messageReceived, if_pos hcond, dispatch_bus hr _ i _ hd', List.append_nil, hb]
+      simp only [messageReceived, if_pos hcond, dispatch_bus hr _ i _ _ hd', List.append_nil, hb]
       simp [answered, hm, hnh]
     · have hcond : ¬ (({ m with sender := some nm } : Msg).mtype = .call ∧
           ({ m with sender := some nm } : Msg).dest = some busName) := fun h => hm h.1
       refine ⟨by simpa [messageReceived, hm] using inv, by simpa [messageReceived, hm] using KeepsNames.refl s1,
         rfl, [], by simp, ?_⟩
-      simp [messageReceived, hcond, dispatch_bus hr _ i _ hd', answered, hm]
+      simp [messageReceived, hcond, dispatch_bus hr _ i _ _ hd', answered, hm]
 
 /-- Every message is of exactly one of the three kinds. -/
 theorem dest_trichotomy (m : Msg) :
@@ -360,9 +360,30 @@ theorem dropClient_clients (s : State ρ) (o : Option Name) :
                                 | none => s.clients) := by
   cases o <;> rfl
 
+/-- Under the invariant every key a disconnect deletes is there. -/
+theorem disconnectOk_of_inv {s : State ρ} (inv : Inv s) (i : ConnId) (c : Conn)
+    (hc : s.conns[i]? = some c) (hconn : c.isConnected = true) : disconnectOk s c = true := by
+  have hri : rulesOf s i = c.matchRules := rulesOf_of_getElem s i c hc
+  have hcn : connected s i = true := by rw [connected_of_getElem s i c hc]; exact hconn
+  unfold disconnectOk
+  rw [Bool.and_eq_true]
+  constructor
+  · rw [List.all_eq_true]
+    intro id hid
+    rw [← hri] at hid
+    obtain ⟨r, hr, hre⟩ := inv.ids_present i id hid hcn
+    rw [List.any_eq_true]
+    exact ⟨r, hr, by simp [hre]⟩
+  · cases hu : c.uniqueName with
+    | none => rfl
+    | some n =>
+      have : dget n s.clients = some i :=
+        (inv.clients_iff n i).mpr ⟨by rw [nameOf_of_getElem s i c hc]; exact hu, hcn⟩
+      simp [this]
+
 /-- The state a disconnect leaves, field by field. -/
 theorem stepDisconnect_fields (cfg : Cfg ρ) (s : State ρ) (i : ConnId) (effs : List Effect) (c : Conn)
-    (hc : s.conns[i]? = some c) (hconn : c.isConnected = true) :
+    (hc : s.conns[i]? = some c) (hconn : c.isConnected = true) (hok : disconnectOk s c = true) :
     (stepDisconnect cfg s i effs).1.conns = s.conns.set i { c with isConnected := false } ∧
     (stepDisconnect cfg s i effs).1.clients =
       (match c.uniqueName with
@@ -372,7 +393,8 @@ theorem stepDisconnect_fields (cfg : Cfg ρ) (s : State ρ) (i : ConnId) (effs :
     (stepDisconnect cfg s i effs).1.ruleId = s.ruleId ∧
     (stepDisconnect cfg s i effs).1.nextId = s.nextId ∧
     (∀ dl ∈ (stepDisconnect cfg s i effs).2.deliveries, dl.isBusSignal) ∧
-    (stepDisconnect cfg s i effs).2.named = none := by
+    (stepDisconnect cfg s i effs).2.named = none ∧
+    (stepDisconnect cfg s i effs).2.raised = false := by
   have fr := applyEffects_frame cfg
     ({ s with conns := s.conns.set i { c with isConnected := false },
               rules := s.rules.filter (fun r => !(c.matchRules.contains r.id)) } : State ρ) effs
@@ -380,8 +402,8 @@ theorem stepDisconnect_fields (cfg : Cfg ρ) (s : State ρ) (i : ConnId) (effs :
     ({ s with conns := s.conns.set i { c with isConnected := false },
               rules := s.rules.filter (fun r => !(c.matchRules.contains r.id)) } : State ρ) effs
   obtain ⟨f1, f2, f3, f4, f5⟩ := fr
-  simp only [stepDisconnect, hc, hconn, Bool.true_eq_false, if_false]
-  refine ⟨?_, ?_, ?_, ?_, ?_, sg, trivial⟩
+  simp only [stepDisconnect, hc, hconn, hok, Bool.true_eq_false, if_false]
+  refine ⟨?_, ?_, ?_, ?_, ?_, sg, trivial, trivial⟩
   · rw [(dropClient_fields _ _).1]; exact f1
   · rw [dropClient_clients, f2]
   · rw [(dropClient_fields _ _).2.1]; exact f3
@@ -397,6 +419,7 @@ theorem stepDisconnect_inv (cfg : Cfg ρ) {s : State ρ} (inv : Inv s) (i : Conn
     · simp [stepDisconnect, hc, hconn]; exact inv
     · have hconn' : c.isConnected = true := by simpa using hconn
       obtain ⟨h1, h2, h3, h4, h5, _⟩ := stepDisconnect_fields cfg s i effs c hc hconn'
+        (disconnectOk_of_inv inv i c hc hconn')
       exact inv.disconnect i c hc h1 h2 h3 h4 h5
 
 theorem step_inv {cfg : Cfg ρ} (hr : cfg.Repaired) {s : State ρ} (inv : Inv s) (e : Event ρ) :
